@@ -32,6 +32,58 @@ def gen_tokens(n, wd, shards=14):
     return vecs
 
 
+def damaged_inputs(vd, drv, wd):
+    """Run-time failures caused by the input, and what they leave behind (shared with C12)."""
+    # 5b. run-time failures caused by the input: a well-formed file whose .debug_info is damaged at one DIE (an
+    #     abbreviation code that the table does not have).  Every query is executed twice on the same Dwarf
+    #     value: each execution either yields or fails through zw_result_next, and the second one behaves as
+    #     the first (nothing half-built may be left behind by the failure).
+    sys.path.insert(0, os.path.join(common.VERIF, "gen"))
+    import dwarfgen
+    def mk(i, tag, kids=(), attrs=()):
+        return {"id": i, "tag": tag, "children": list(kids), "attrs": [{"name": 3, "form": "string", "value": "d%d" % i}] + list(attrs)}
+    forest = {"units": [
+        {"kind": "cu", "version": 4, "table": 0, "root": mk(1, 0x11, [
+            mk(2, 0x24), mk(3, 0x34, attrs=[{"name": 0x49, "form": "ref4", "value": 6}]), mk(4, 0x39, [mk(5, 0x34)]),
+            mk(6, 0x24), mk(7, 0x34, attrs=[{"name": 0x49, "form": "ref4", "value": 2}])])},
+        {"kind": "cu", "version": 4, "table": 1, "root": mk(10, 0x11, [mk(11, 0x34), mk(12, 0x34)])}]}
+    good, offs, _ = dwarfgen.build(forest, wd, "damaged-base")
+    hdr = subprocess.run(["readelf", "-SW", good], stdout=subprocess.PIPE).stdout.decode()
+    m = __import__("re").search(r"\.debug_info\s+PROGBITS\s+[0-9a-f]+\s+([0-9a-f]+)\s+([0-9a-f]+)", hdr)
+    if not m:
+        raise common.ToolError("no .debug_info in the generated file")
+    base = int(m.group(1), 16)
+    blob = open(good, "rb").read()
+    dcmds, dmeta = [], []
+    DQ = ["entry", "entry parent", "entry @AT_type parent", "entry child", "entry ?root", "[entry] length", "unit root child",
+          "entry @AT_type (|T| T parent, T root)", "raw entry attribute value"]
+    for did in (2, 4, 5, 6, 11, 12):
+        bad = bytearray(blob)
+        bad[base + offs["die_%d" % did]] = 0x7f          # the abbreviation code of that DIE
+        bp = os.path.join(wd, "damaged-%d.o" % did)
+        open(bp, "wb").write(bytes(bad))
+        for q in DQ:
+            dcmds.append("\t".join(["run", str(len(dcmds)), "max=200,t=30,twice", zw.hexq(q), bp])); dmeta.append((did, q))
+    dres = zw.run_driver(drv, dcmds, wd, tag="damaged")
+    dby = {r.get("id"): r for r in dres}
+    nfail = 0
+    for i, (did, q) in enumerate(dmeta):
+        vd.cov["evaluations"] += 1
+        r = dby.get(str(i)) or {}
+        key = "damaged DWARF (DIE %d): `%s'" % (did, q)
+        if r.get("status") not in ("ok", "runtime_error") or (r.get("status") == "runtime_error" and not r.get("err")) \
+                or r.get("err", "").startswith("@@"):
+            vd.observe(key + " does not end in a result or a reported failure", {"observed": r}); continue
+        sec = r.get("second") or {}
+        if (sec.get("status"), sec.get("err"), json.dumps(sec.get("results"), sort_keys=True)) != \
+           (r.get("status"), r.get("err"), json.dumps(r.get("results"), sort_keys=True)):
+            vd.observe(key + ": the second execution on the same Dwarf value differs from the first", {"first": {k: r.get(k) for k in ("status", "err")}, "second": sec})
+        elif r.get("status") == "runtime_error":
+            nfail += 1
+    if nfail == 0:
+        raise common.ToolError("C14: none of the damaged files made a query fail")
+
+
 def run(tier):
     vd = common.Verdict(PID, tier)
     wd = common.scratch(PID)
@@ -147,54 +199,25 @@ def run(tier):
         vd.cov["evaluations"] += 1
         if r.get("status") != "runtime_error" or len(r.get("results", [])) != k or not r.get("err"):
             vd.observe("run-time failure at pull %d `%s'" % (k, q), {"observed": r})
-    # 5b. run-time failures caused by the input: a well-formed file whose .debug_info is damaged at one DIE (an
-    #     abbreviation code that the table does not have).  Every query is executed twice on the same Dwarf
-    #     value: each execution either yields or fails through zw_result_next, and the second one behaves as
-    #     the first (nothing half-built may be left behind by the failure).
-    sys.path.insert(0, os.path.join(common.VERIF, "gen"))
-    import dwarfgen
-    def mk(i, tag, kids=(), attrs=()):
-        return {"id": i, "tag": tag, "children": list(kids), "attrs": [{"name": 3, "form": "string", "value": "d%d" % i}] + list(attrs)}
-    forest = {"units": [
-        {"kind": "cu", "version": 4, "table": 0, "root": mk(1, 0x11, [
-            mk(2, 0x24), mk(3, 0x34, attrs=[{"name": 0x49, "form": "ref4", "value": 6}]), mk(4, 0x39, [mk(5, 0x34)]),
-            mk(6, 0x24), mk(7, 0x34, attrs=[{"name": 0x49, "form": "ref4", "value": 2}])])},
-        {"kind": "cu", "version": 4, "table": 1, "root": mk(10, 0x11, [mk(11, 0x34), mk(12, 0x34)])}]}
-    good, offs, _ = dwarfgen.build(forest, wd, "damaged-base")
-    hdr = subprocess.run(["readelf", "-SW", good], stdout=subprocess.PIPE).stdout.decode()
-    m = __import__("re").search(r"\.debug_info\s+PROGBITS\s+[0-9a-f]+\s+([0-9a-f]+)\s+([0-9a-f]+)", hdr)
-    if not m:
-        raise common.ToolError("no .debug_info in the generated file")
-    base = int(m.group(1), 16)
-    blob = open(good, "rb").read()
-    dcmds, dmeta = [], []
-    DQ = ["entry", "entry parent", "entry @AT_type parent", "entry child", "entry ?root", "[entry] length", "unit root child",
-          "entry @AT_type (|T| T parent, T root)", "raw entry attribute value"]
-    for did in (2, 4, 5, 6, 11, 12):
-        bad = bytearray(blob)
-        bad[base + offs["die_%d" % did]] = 0x7f          # the abbreviation code of that DIE
-        bp = os.path.join(wd, "damaged-%d.o" % did)
-        open(bp, "wb").write(bytes(bad))
-        for q in DQ:
-            dcmds.append("\t".join(["run", str(len(dcmds)), "max=200,t=30,twice", zw.hexq(q), bp])); dmeta.append((did, q))
-    dres = zw.run_driver(os.path.join(san, "bin", "zwdrv"), dcmds, wd, tag="damaged")
-    dby = {r.get("id"): r for r in dres}
-    nfail = 0
-    for i, (did, q) in enumerate(dmeta):
+    damaged_inputs(vd, os.path.join(san, "bin", "zwdrv"), wd)
+    # 5c. every word of the vocabulary on stacks that are too shallow for it (empty, one value, two values of
+    #     several types): a result, a diagnostic or a reported failure -- never a crash
+    wr = zw.run_driver(os.path.join(plain, "bin", "zwdrv"), ["words\tw\t-\t00"], wd, tag="words")
+    ucmds, umeta = [], []
+    for w in wr[0]["words"]:
+        if w in ("=", "~") or w.startswith("~"):
+            continue
+        for pre in ("", "1", "\"s\"", "[]", "1 2", "\"s\" [1]"):
+            q = (pre + " " + w).strip()
+            ucmds.append("\t".join(["run", str(len(ucmds)), "max=20,t=20", zw.hexq(q)])); umeta.append(q)
+    ures = zw.run_driver(os.path.join(san, "bin", "zwdrv"), ucmds, wd, tag="underflow")
+    uby = {r.get("id"): r for r in ures}
+    for i, q in enumerate(umeta):
         vd.cov["evaluations"] += 1
-        r = dby.get(str(i)) or {}
-        key = "damaged DWARF (DIE %d): `%s'" % (did, q)
-        if r.get("status") not in ("ok", "runtime_error") or (r.get("status") == "runtime_error" and not r.get("err")) \
-                or r.get("err", "").startswith("@@"):
-            vd.observe(key + " does not end in a result or a reported failure", {"observed": r}); continue
-        sec = r.get("second") or {}
-        if (sec.get("status"), sec.get("err"), json.dumps(sec.get("results"), sort_keys=True)) != \
-           (r.get("status"), r.get("err"), json.dumps(r.get("results"), sort_keys=True)):
-            vd.observe(key + ": the second execution on the same Dwarf value differs from the first", {"first": {k: r.get(k) for k in ("status", "err")}, "second": sec})
-        elif r.get("status") == "runtime_error":
-            nfail += 1
-    if nfail == 0:
-        raise common.ToolError("C14: none of the damaged files made a query fail")
+        r = uby.get(str(i)) or {}
+        if r.get("status") not in ("ok", "runtime_error", "parse_error", "maxres") or r.get("err", "").startswith("@@") \
+                or (r.get("status") == "runtime_error" and not r.get("err")):
+            vd.observe("word on a shallow stack `%s'" % q, {"observed": r})
     dw = os.path.join(plain, "bin", "dwgrep")
     for q, want in [("(", 2), ("1 drop drop", 2), ('"abc', 2), ("[0, 1] elem (?1 drop drop ||)", 2), ("0x", 2)]:
         pr = subprocess.run([dw, "-e", q], stdout=subprocess.PIPE, stderr=subprocess.PIPE, timeout=30)
